@@ -172,8 +172,43 @@ class Facts:
             out.append(f)
         return out
 
+    def _absorbed_into(self, kw):
+        """a function of the baseline that no longer exists and had exactly one caller in the baseline has most likely been
+        merged into that caller (the inverse of extracting a helper): the rules that were anchored on it look at the
+        caller instead. Returns the caller, or None."""
+        import renames, json as _json
+        try:
+            with open(renames.BASELINE) as fh:
+                base = _json.load(fh)
+        except OSError:
+            return None
+        recs = base.get("records") or {}
+        present = {f["name"] for f in self.fns}
+        cands = []
+        for nm, r in recs.items():
+            if nm in present:
+                continue
+            ident = dict(r["ident"])
+            ident.setdefault("kind", "fn")
+            probe = Facts.__new__(Facts)
+            probe.fns = [ident]
+            if Facts.find(probe, **kw):
+                cands.append(nm)
+        if len(cands) != 1:
+            return None
+        key = "call:" + re.sub(r"<.*?>", "", cands[0])
+        callers = [nm for nm, r in recs.items() if any(k == key for k, _ in r["fp"])]
+        if len(callers) != 1 or callers[0] not in present:
+            return None
+        got = [f for f in self.fns if f["name"] == callers[0] and "blocks" in f]
+        return got[0] if len(got) == 1 else None
+
     def one(self, **kw):
         r = self.find(**kw)
+        if not r:
+            a = self._absorbed_into(kw)
+            if a is not None:
+                return a
         if len(r) != 1:
             raise AnchorLost("expected exactly one function for %r, found %d: %s" % (kw, len(r), [f["name"] for f in r][:6]))
         return r[0]
@@ -791,6 +826,8 @@ class Body:
                     if k == "agg":
                         if okp and not lp and rv.get("variant") in ("Err", "None", "Break"):
                             continue
+                        if rv.get("ak") == "adt" and not rv["fields"] and rv.get("variant") and not rest:
+                            out.add(("variant", "%s::%s" % (rv.get("adt"), rv["variant"])))
                         if rest and rest[0] < len(rv["fields"]) and rv["ak"] in ("tuple", "adt", "closure"):
                             push_op(rv["fields"][rest[0]], rest[1:])
                         elif rest and rv["ak"] in ("tuple", "adt"):
@@ -1099,7 +1136,7 @@ class Body:
                 if not d.get("p"):
                     env.pop(d["l"], None)
                     for pat, v in assume_calls.items():
-                        if call_is(t, pat) and d["l"] not in escaped:
+                        if ((pat == bb) if isinstance(pat, int) else call_is(t, pat)) and d["l"] not in escaped:
                             env[d["l"]] = v
                     # `?` on a known Result / Option: Ok(v) | Some(v) -> Continue(v), Err | None -> Break
                     if call_is(t, r"Try>::branch$") and len(t["args"]) == 1 and d["l"] not in escaped:
@@ -1116,6 +1153,35 @@ class Body:
                 edges.add((bb, y))
                 work.append((y, e2))
         return reach, edges
+
+    def variant_comparisons(self, enum_re):
+        """[(block, variant name, is_ne)] for the calls `<E as PartialEq>::eq/ne(&x, &E::Variant)` of this body, E matching
+        enum_re: the constant side is a promoted constant in MIR, its variant is read from the source expression
+        (`x != E::Variant`) at the same line"""
+        out = []
+        nodes = None
+        for i, t in self.calls(r"cmp::PartialEq>::(eq|ne)$"):
+            c = t.get("callee") or {}
+            if not re.search(enum_re, str(c.get("self_ty") or "")):
+                continue
+            if nodes is None:
+                nodes = [n for n in hir_walk(self.F.tree(self.f)) if n.get("k") == "binop" and n.get("op") in ("Eq", "Ne")]
+                for nm in self.F.inlined.get(self.f["name"], []):
+                    for g in self.F.fns:
+                        if g["name"] == nm:
+                            nodes += [n for n in hir_walk(self.F.tree(g)) if n.get("k") == "binop" and n.get("op") in ("Eq", "Ne")]
+            for n in nodes:
+                if n.get("ln") != t.get("ln") or not re.search(enum_re, str((n.get("callee") or {}).get("self_ty") or "")):
+                    continue
+                for side in (n.get("b") or {}, n.get("a") or {}):
+                    m = re.search(r"(?:^|::)([A-Z]\w*)::([A-Z]\w*)$", side.get("nx") or "")
+                    if m:
+                        out.append((i, m.group(2), n["op"] == "Ne"))
+                        break
+                else:
+                    continue
+                break
+        return out
 
     def whole_copies(self, seed):
         """locals holding the same value as the seeds: plain moves / copies / borrows of the WHOLE local (a value built
